@@ -59,7 +59,7 @@ def opaque_msg(ex, st, tag):
        r'^<String as Borrow<str>>::borrow$', r'^must_use$', r'^Vec::as_slice$', r'^<Option<.*> as Clone>::clone$',
        r'^<Result<.*> as Clone>::clone$', r'^slice::<impl \[.*\]>::to_vec$', r'^<&str as Into<String>>::into$',
        r'^<String as Into<String>>::into$', r'^<(u8|u16|u32|u64|usize|i16|i32|i64|bool|char) as Clone>::clone$',
-       r'^String::from_utf8_lossy$', r'^<Cow<.*> as ToString>::to_string$', r'^<Vec<.*> as AsRef<.*>>::as_ref$',
+       r'^<Cow<.*> as ToString>::to_string$', r'^Cow::<.*>::into_owned$', r'^<Cow<.*> as Deref>::deref$', r'^<Vec<.*> as AsRef<.*>>::as_ref$',
        r'^PathBuf::as_path$', r'^<PathBuf as Deref>::deref$', r'^<str as AsRef<.*>>::as_ref$', r'^<String as AsRef<.*>>::as_ref$',
        r'^Path::new$', r'^PathBuf::from$', r'^<PathBuf as From<.*>>::from$', r'^<&T as .*Clone>::clone$',
        r'^<.* as Into<.*>>::into$', r'^<.* as Clone>::clone$', r'^core::str::<impl str>::to_owned$', r'^std::string::String::from$',
@@ -95,8 +95,24 @@ def m_is_empty(ex, st, c):
 def m_string_new(ex, st, c): return SymStr(())
 
 
+@model(r'^String::with_capacity$')
+def m_string_with_capacity(ex, st, c):
+    n = D(ex, st, c.args[0])
+    too_big = int_binop('Gt', n, Int(n.ty, (1 << 63) - 1))
+    if too_big is False: return SymStr(())
+    return Fork([(too_big, Panic('capacity overflow')), (b_not(too_big), SymStr(()))])
+
+
 @model(r'^Vec::new$', r'^Vec::with_capacity$')
 def m_vec_new(ex, st, c):
+    if 'with_capacity' in c.callee and c.args:
+        n = D(ex, st, c.args[0])
+        if isinstance(n, Int):
+            isbytes = re.match(r'^Vec::<u8>::', c.callee) or (c.dest_ty and re.match(r'^std::vec::Vec<u8>$', c.dest_ty))
+            empty = SymStr(()) if isbytes else Vec(())
+            too_big = int_binop('Gt', n, Int(n.ty, (1 << 63) - 1))      # capacity in bytes must not exceed isize::MAX (elements are >= 1 byte)
+            if too_big is False: return empty
+            return Fork([(too_big, Panic('capacity overflow')), (b_not(too_big), empty)])
     if re.match(r'^Vec::<u8>::', c.callee): return SymStr(())
     if c.dest_ty and re.match(r'^std::vec::Vec<u8>$', c.dest_ty): return SymStr(())
     return Vec(())
@@ -344,13 +360,34 @@ def m_slice_contains(ex, st, c):
 
 @model(r'^core::str::<impl str>::starts_with$', r'^core::slice::<impl \[u8\]>::starts_with$')
 def m_starts_with(ex, st, c):
-    s = D(ex, st, c.args[0]); p = as_str(ex, st, c.args[1])
+    s = D(ex, st, c.args[0])
+    if 'str' in c.callee:
+        kind, p = byte_pattern(ex, st, c.args[1])
+        if kind != 'str': return _edge_byte_matches(ex, s, kind, p, first=True)
+    p = as_str(ex, st, c.args[1])
     return match_at_general(s, 0, p)
+
+
+def _edge_byte_matches(ex, s, kind, p, first):
+    f = s.flat()
+    if f.cap == 0: return False
+    nonempty = b_not(bv_eq(f.ln, 0, LW))
+    if first: b = f.bs[0]
+    else:
+        b = f.bs[0]
+        for i in range(1, f.cap): b = ite_bv(bv_eq(f.ln, i + 1, LW), f.bs[i], b, 8)
+    if kind == 'set': return b_and(nonempty, in_set(p)(b))
+    ch = Int('char', b if isinstance(b, int) else z3.ZeroExt(24, b))
+    return Fork([(b_not(nonempty), False), (nonempty, LazyR(lambda: CallFn(p, [ch], lambda ex_, st_, r: r)))])
 
 
 @model(r'^core::str::<impl str>::ends_with$', r'^core::slice::<impl \[u8\]>::ends_with$')
 def m_ends_with(ex, st, c):
-    s = D(ex, st, c.args[0]); p = as_str(ex, st, c.args[1])
+    s = D(ex, st, c.args[0])
+    if 'str' in c.callee:
+        kind, p = byte_pattern(ex, st, c.args[1])
+        if kind != 'str': return _edge_byte_matches(ex, s, kind, p, first=False)
+    p = as_str(ex, st, c.args[1])
     pf = p.flat()
     if pf.conc_len: return s.ends_with(p)
     f = s.flat(); alts = []
@@ -511,6 +548,39 @@ def m_iter_any(ex, st, c):
         if len(alts) == 1 and alts[0][0] is True: return alts[0][1]
         return Fork(alts)
     return step(it, 0)
+
+
+def _lazy(fn, *args):
+    return LazyR(lambda: fn(*args))
+
+
+@model(r"^<(std::str::)?(Split|SplitN|Windows|Bytes)<'_.*> as Iterator>::(nth|last|count)$", r"^<(std::slice::|std::vec::)?(Iter|IntoIter)<.*> as Iterator>::(nth)$")
+def m_iter_nth(ex, st, c):
+    """nth(k) / last() / count() of a lazily evaluated iterator: k (concrete) steps of pure_next, forking on exhaustion"""
+    it = D(ex, st, c.args[0])
+    kind = strip_generics(c.callee).rsplit('::', 1)[1]
+    if kind == 'nth':
+        k = D(ex, st, c.args[1])
+        if not k.conc: raise Unsupported('Iterator::nth with a symbolic index')
+        def step(it, i):
+            alts = []
+            for cond, item, nit in pure_next(ex, st, it):
+                if item is None: alts.append((cond, _WithStore(NONE, (c.args[0], nit))))
+                elif i == k.v: alts.append((cond, _WithStore(Some(item), (c.args[0], nit))))
+                else: alts.append((cond, _lazy(step, nit, i + 1)))
+            if len(alts) == 1 and alts[0][0] is True: return alts[0][1]
+            return Fork(alts)
+        return step(it, 0)
+
+    def walk(it, i, last):
+        if i > ex.max_block_visits: return StopR('bound:unroll', 'Iterator::%s' % kind)
+        alts = []
+        for cond, item, nit in pure_next(ex, st, it):
+            if item is None: alts.append((cond, usize(i) if kind == 'count' else (NONE if last is None else Some(last))))
+            else: alts.append((cond, _lazy(walk, nit, i + 1, item)))
+        if len(alts) == 1 and alts[0][0] is True: return alts[0][1]
+        return Fork(alts)
+    return walk(it, 0, None)
 
 
 @model(r"^<std::str::Split<'_, .*> as Iterator>::next$")
@@ -735,6 +805,30 @@ def is_ws(b):
     return z3.Or(z3.And(z3.UGE(b, 9), z3.ULE(b, 13)), b == 32)
 
 
+def trim_by(s, pred, do_l, do_r):
+    """strip the leading / trailing bytes for which pred(byte) holds (pred: int|BitVec -> bool|BoolRef)"""
+    f = s.flat(); n = f.cap
+    start = 0
+    if do_l:
+        allp = True; start = 0
+        for i in range(n):
+            inr = bv_ult(i, f.ln, LW)
+            allp = b_and(allp, inr, pred(f.bs[i]))
+            if allp is False: break
+            start = bv_add(start, ite_bv(allp, 1, 0, LW), LW)
+    end = f.ln
+    if do_r:
+        end = 0
+        for i in range(n):
+            inr = bv_ult(i, f.ln, LW)
+            keep = b_and(inr, b_not(pred(f.bs[i])))
+            end = ite_bv(keep, i + 1, end, LW) if keep is not False else end
+        # if every byte is stripped, end = 0 <= start: result empty
+    ln = ite_bv(bv_ult(start, end, LW), bv_sub(end, start, LW), 0, LW)
+    start2 = ite_bv(bv_ult(start, end, LW), start, 0, LW)
+    return s.substr(start2, ln)
+
+
 @model(r'^core::str::<impl str>::trim$', r'^core::str::<impl str>::trim_start$', r'^core::str::<impl str>::trim_end$')
 def m_trim(ex, st, c):
     s = D(ex, st, c.args[0])
@@ -746,27 +840,94 @@ def m_trim(ex, st, c):
         if do_l: r = r.lstrip(ws)
         if do_r: r = r.rstrip(ws)
         return SymStr.const(r)
-    f = s.flat(); n = f.cap
-    # start = number of leading ws bytes ; end = index after last non-ws byte
-    start = 0
-    if do_l:
-        allws = True; start = 0
-        for i in range(n):
-            inr = bv_ult(i, f.ln, LW)
-            allws = b_and(allws, inr, is_ws(f.bs[i]))
-            if allws is False: break
-            start = bv_add(start, ite_bv(allws, 1, 0, LW), LW)
-    end = f.ln
-    if do_r:
-        end = 0
-        for i in range(n):
-            inr = bv_ult(i, f.ln, LW)
-            nonws = b_and(inr, b_not(is_ws(f.bs[i])))
-            end = ite_bv(nonws, i + 1, end, LW) if nonws is not False else end
-        # if everything is whitespace, end = 0 <= start: result empty
-    ln = ite_bv(bv_ult(start, end, LW), bv_sub(end, start, LW), 0, LW)
-    start2 = ite_bv(bv_ult(start, end, LW), start, 0, LW)
-    return s.substr(start2, ln)
+    return trim_by(s, is_ws, do_l, do_r)
+
+
+def byte_pattern(ex, st, v):
+    """str::pattern::Pattern argument -> ('set', [byte values]) | ('str', SymStr) | ('closure', value)"""
+    v = ex.deref(st, v)
+    if isinstance(v, (Closure, FnItem)): return ('closure', v)
+    if isinstance(v, Int) and v.ty == 'char':
+        if v.conc and v.v < 128: return ('set', [v.v])
+        if not v.conc: return ('set', [z3.Extract(7, 0, v.v)])
+        raise Unsupported('non-ASCII char pattern')
+    if isinstance(v, (Vec, Tup)) or (isinstance(v, Struct) and False):
+        items = v.items
+        out = []
+        for it in items:
+            it = ex.deref(st, it)
+            if not (isinstance(it, Int) and it.ty == 'char' and it.conc and it.v < 128): raise Unsupported('char-set pattern element %r' % (it,))
+            out.append(it.v)
+        return ('set', out)
+    p = as_str(ex, st, v)
+    pc = p.concrete()
+    if pc is not None and len(pc) == 1: return ('set', [pc[0]])
+    return ('str', p)
+
+
+def in_set(bytes_):
+    def pred(b): return b_or(*[bv_eq(b, x, 8) for x in bytes_])
+    return pred
+
+
+def closure_on_bytes(ex, clo, f, idxs, done):
+    """apply a char predicate closure to the bytes f.bs[i] (i in idxs, ASCII assumed) one after the other; done(list of bools)"""
+    res = []
+
+    def go(k):
+        if k == len(idxs): return done(res)
+        b = f.bs[idxs[k]]
+        ch = Int('char', b if isinstance(b, int) else z3.ZeroExt(24, b))
+
+        def cont(ex_, st_, r):
+            res.append(r); return LazyR(lambda: go(k + 1))
+        return CallFn(clo, [ch], cont)
+    return go(0)
+
+
+@model(r'^core::str::<impl str>::(trim_matches|trim_start_matches|trim_end_matches|trim_left_matches|trim_right_matches)$')
+def m_trim_matches(ex, st, c):
+    s = D(ex, st, c.args[0])
+    name = strip_generics(c.callee).rsplit('::', 1)[1]
+    do_l = name in ('trim_matches', 'trim_start_matches', 'trim_left_matches'); do_r = name in ('trim_matches', 'trim_end_matches', 'trim_right_matches')
+    kind, p = byte_pattern(ex, st, c.args[1])
+    if kind == 'set': return trim_by(s, in_set(p), do_l, do_r)
+    if kind == 'closure':
+        f = s.flat()
+        if f.cap > 16: raise Unsupported('closure pattern over a long string')
+        def done(bits):
+            table = list(bits)
+            def pred_at(i): return table[i]
+            # trim_by wants a predicate on bytes; here the predicate is positional
+            g = s.flat(); n = g.cap
+            start = 0
+            if do_l:
+                allp = True
+                for i in range(n):
+                    allp = b_and(allp, bv_ult(i, g.ln, LW), table[i])
+                    if allp is False: break
+                    start = bv_add(start, ite_bv(allp, 1, 0, LW), LW)
+            end = g.ln
+            if do_r:
+                end = 0
+                for i in range(n):
+                    keep = b_and(bv_ult(i, g.ln, LW), b_not(table[i]))
+                    end = ite_bv(keep, i + 1, end, LW) if keep is not False else end
+            ln = ite_bv(bv_ult(start, end, LW), bv_sub(end, start, LW), 0, LW)
+            return s.substr(ite_bv(bv_ult(start, end, LW), start, 0, LW), ln)
+        return closure_on_bytes(ex, p, f, list(range(f.cap)), done)
+    # multi-byte string pattern: strip repeatedly (bounded by cap // len)
+    pc = p.concrete()
+    if pc is None or len(pc) == 0: raise Unsupported('trim_*_matches with a symbolic or empty string pattern')
+    cur = s
+    for _ in range(s.flat().cap // len(pc)):
+        if do_l:
+            hit = match_at_general(cur, 0, p)
+            if hit is not False: cur = cur.substr(ite_bv(hit, len(pc), 0, LW), bv_sub(cur.length(), ite_bv(hit, len(pc), 0, LW), LW))
+        if do_r:
+            hit = cur.ends_with(p)
+            if hit is not False: cur = cur.substr(0, bv_sub(cur.length(), ite_bv(hit, len(pc), 0, LW), LW))
+    return cur
 
 
 def lower(b):
@@ -879,6 +1040,29 @@ def m_from_utf8(ex, st, c):
                  (b_and(b_not(ascii_), valid), StopR('domain:non-ascii', 'from_utf8 accepted non-ASCII text'))])
 
 
+@model(r'^String::from_utf8_lossy$')
+def m_from_utf8_lossy(ex, st, c):
+    s = D(ex, st, c.args[0])
+    cc = s.concrete()
+    if cc is not None:
+        return SymStr.const(cc.decode('utf-8', 'replace').encode('utf-8'))
+    f = s.flat()
+    ascii_ = utf8_classes(f)
+    if ascii_ is True: return s
+    valid = utf8_valid(f)
+    # invalid input: every maximal invalid sequence becomes U+FFFD, so the result is some string different from the input
+    def lossy(st_):
+        cons = []
+        r = SymStr.fresh(ex.fresh('lossy'), f.cap * 3, cons)
+        cons.append(z3.Not(zb(r.eq(s))))
+        st_.pc.extend(cons)
+        return r
+    if getattr(ex, 'lossy_mode', 'approx') == 'stop':
+        # checks whose claim is limited to ASCII / valid UTF-8 text cut the replacement branch as outside their domain
+        return Fork([(b_or(ascii_, valid), s), (b_and(b_not(ascii_), b_not(valid)), StopR('domain:invalid-utf8-lossy', 'from_utf8_lossy replaces bytes'))])
+    return Fork([(b_or(ascii_, valid), s), (b_and(b_not(ascii_), b_not(valid)), LazyR(lossy))])
+
+
 @model(r'^<(FromUtf8Error|Utf8Error|ParseIntError|ParseBoolError|ParseFloatError|std::io::Error|VarError|std::fmt::Error|AddrParseError|SystemTimeError|std::sync::mpsc::RecvError) as ToString>::to_string$')
 def m_err_to_string(ex, st, c):
     return opaque_msg(ex, st, c.callee[1:c.callee.index(' as ')].split('::')[-1])
@@ -928,12 +1112,98 @@ def m_ok(ex, st, c):
 def m_as_ref(ex, st, c): return _enum(ex, st, c.args[0])
 
 
+def _gen_args(callee):
+    """text inside the first ::<...> of a callee path, split at top-level commas"""
+    i = callee.find('::<')
+    if i < 0: return []
+    depth = 0; out = []; cur = ''
+    for ch in callee[i + 3:]:
+        if ch in '<([': depth += 1
+        elif ch in '>)]':
+            if depth == 0: break
+            depth -= 1
+        if ch == ',' and depth == 0: out.append(cur.strip()); cur = ''
+        else: cur += ch
+    out.append(cur.strip())
+    return out
+
+
+def default_of(ty):
+    ty = ty.strip()
+    if ty in WIDTH: return Int(ty, 0)
+    if ty == 'bool': return False
+    if ty in ('String', '&str', 'std::string::String', 'Vec<u8>'): return SymStr.const(b'')
+    if ty.startswith('Vec<'): return Vec([])
+    if ty.startswith('Option<'): return NONE
+    if ty == '()': return UNIT
+    if ty == 'char': return Int('char', 0)
+    raise Unsupported('Default for %s' % ty)
+
+
+def _callk(clo, args, k):
+    return CallFn(clo, list(args), lambda ex_, st_, r: k(r))
+
+
+@model(r'^(Option|Result)(::<.*>)?::(map|map_err|and_then|or_else|unwrap_or_else|unwrap_or_default|ok_or|ok_or_else|filter|is_some_and|is_none_or|is_ok_and|is_err_and|map_or|map_or_else|or|and|xor|flatten|inspect|inspect_err)$',
+       r'^(Option|Result)::(or|and|xor|flatten|unwrap_or_default)$')
+def m_opt_res_combinators(ex, st, c):
+    v = _enum(ex, st, c.args[0])
+    base = strip_generics(c.callee)
+    op = base.rsplit('::', 1)[1]
+    is_opt = v.variant in ('Some', 'None')
+    good = v.variant in ('Some', 'Ok')
+    a = c.args
+    ident = lambda r: r
+    if op == 'map':
+        if good: return _callk(a[1], [v.fields[0]], (lambda r: Some(r)) if is_opt else (lambda r: Ok(r)))
+        return v
+    if op == 'map_err':
+        if v.variant == 'Err': return _callk(a[1], [v.fields[0]], lambda r: Err(r))
+        return v
+    if op == 'and_then':
+        return _callk(a[1], [v.fields[0]], ident) if good else v
+    if op == 'or_else':
+        if good: return v
+        return _callk(a[1], [] if is_opt else [v.fields[0]], ident)
+    if op == 'unwrap_or_else':
+        if good: return v.fields[0]
+        return _callk(a[1], [] if is_opt else [v.fields[0]], ident)
+    if op == 'unwrap_or_default':
+        if good: return v.fields[0]
+        g = _gen_args(c.callee)
+        if not g: raise Unsupported('unwrap_or_default without a type')
+        return default_of(g[0])
+    if op == 'ok_or': return Ok(v.fields[0]) if good else Err(a[1])
+    if op == 'ok_or_else': return Ok(v.fields[0]) if good else _callk(a[1], [], lambda r: Err(r))
+    if op == 'filter':
+        if not good: return NONE
+        def k(r):
+            if isinstance(r, bool): return v if r else NONE
+            return Fork([(r, v), (b_not(r), NONE)])
+        return _callk(a[1], [v.fields[0]], k)
+    if op in ('is_some_and', 'is_ok_and'): return _callk(a[1], [v.fields[0]], ident) if good else False
+    if op == 'is_err_and': return _callk(a[1], [v.fields[0]], ident) if v.variant == 'Err' else False
+    if op == 'is_none_or': return _callk(a[1], [v.fields[0]], ident) if good else True
+    if op == 'map_or': return _callk(a[2], [v.fields[0]], ident) if good else a[1]
+    if op == 'map_or_else':
+        if good: return _callk(a[2], [v.fields[0]], ident)
+        return _callk(a[1], [] if is_opt else [v.fields[0]], ident)
+    if op == 'or': return v if good else D(ex, st, a[1])
+    if op == 'and': return D(ex, st, a[1]) if good else v
+    if op == 'xor':
+        w = _enum(ex, st, a[1]); g2 = w.variant == 'Some'
+        return v if (good and not g2) else w if (g2 and not good) else NONE
+    if op == 'flatten': return v.fields[0] if good else v
+    if op in ('inspect', 'inspect_err'): return v
+    raise Unsupported(op)
+
+
 @model(r'^Option::<.*>::unwrap_or$', r'^Result::<.*>::unwrap_or$', r'^Option::unwrap_or$')
 def m_unwrap_or(ex, st, c):
     v = _enum(ex, st, c.args[0]); return v.fields[0] if v.variant in ('Some', 'Ok') else c.args[1]
 
 
-@model(r'^Option::<.*>::and_then$', r'^Option::and_then$', r'^Option::<.*>::map$')
+@model(r'^Option::and_then$')
 def m_and_then(ex, st, c):
     v = _enum(ex, st, c.args[0])
     if v.variant == 'None': return NONE
